@@ -180,12 +180,17 @@ func execMusig(op string, a []string) string {
 		return session(a[0] == "1", msg32(unhex(a[1])), parseTweakOpt(a[2]), a[3])
 	case op == "msign" && len(a) == 7:
 		priv := privFrom(a[0])
-		n, err := musig2.GenNonces(musig2.WithCustomRand(bytes.NewReader(unhex(a[1]))), musig2.WithPublicKey(priv.PubKey()))
-		if err != nil {
-			return "err"
+		var sec [musig2.SecNonceSize]byte
+		sb := unhex(a[1])
+		if len(sb) != musig2.SecNonceSize {
+			return "bad-op"
 		}
-		ps, err := musig2.Sign(n.SecNonce, priv, nonce66(unhex(a[2])), parseKeys(a[3]), msg32(unhex(a[4])),
-			parseTweakOpt(a[6]).sign(a[5] == "1")...)
+		copy(sec[:], sb)
+		so := parseTweakOpt(a[6]).sign(strings.HasPrefix(a[5], "1"))
+		if strings.HasSuffix(a[5], "f") {
+			so = append(so, musig2.WithFastSign())
+		}
+		ps, err := musig2.Sign(sec, priv, nonce66(unhex(a[2])), parseKeys(a[3]), msg32(unhex(a[4])), so...)
 		if err != nil {
 			return "err"
 		}
@@ -513,7 +518,7 @@ func genMusig(g *core.Gen) {
 		g.Case("keyagg:inf-tweak", true, fmt.Sprintf("C11 keyagg %d %x p:%x,p:%x", r.Intn(2), comp, b32(big.NewInt(5)), b32(add(neg, -5))))
 	}
 	// partial signature verification on its own: a real session's data with one field changed
-	for i := 0; i < g.N(25, 600); i++ {
+	for i := 0; i < g.N(40, 600); i++ {
 		n := r.Intn(4) + 1
 		ds := signerSet(r, n)
 		sort := r.Bool()
@@ -616,8 +621,36 @@ func genMusig(g *core.Gen) {
 				copy(an2[1:33], r.Bytes(32))
 				cls = "random-x"
 			}
-			rnd := r.Bytes(32)
-			g.Case("msign:"+cls, true, fmt.Sprintf("C11 msign %x %x %x %s %x %s %s", b32(ds[who]), rnd, an2, keyList, msg[:], sortS, tws))
+			// the secret nonce as GenNonces makes it, or with one of Sign's entry conditions violated
+			sec := append([]byte{}, nonces[who].SecNonce[:]...)
+			kl := keyList
+			switch r.Intn(8) {
+			case 0:
+				for z := 0; z < 32; z++ {
+					sec[z] = 0
+				}
+				cls += "+k1=0"
+			case 1:
+				for z := 32; z < 64; z++ {
+					sec[z] = 0
+				}
+				cls += "+k2=0"
+			case 2:
+				copy(sec[64:], pubOf(randPriv(r)).SerializeCompressed())
+				cls += "+foreign-secnonce"
+			case 3:
+				kl = hx(pubOf(randPriv(r)).SerializeCompressed())
+				cls += "+not-a-signer"
+			case 4:
+				copy(sec[:32], b32(curveN)) // k1 = n reduces to 0
+				cls += "+k1=n"
+			}
+			fs := sortS
+			if r.Bool() {
+				fs += "f" // WithFastSign: no self-verification inside Sign
+				cls += "+fast"
+			}
+			g.Case("msign:"+cls, true, fmt.Sprintf("C11 msign %x %x %x %s %x %s %s", b32(ds[who]), sec, an2, kl, msg[:], fs, tws))
 		}
 		g.Case("pverify:"+class, true, fmt.Sprintf("C11 pverify %x %x %x %s %x %x %s %s", b32(sv), pn, an, keyList, pk, m, sortS, tws))
 	}
